@@ -174,8 +174,9 @@ class Gen:
         if t in INTW and self.falsy:
             return K(0), K(0), [(K(b'\x00' * INTW[t]), INTW[t])]
         if t in INTW:
-            v = self.fresh('i', ty='int')
-            return v, v, [(Term('to_bytes', v, K(INTW[t]), K('little'), K(True)), INTW[t])]
+            # `#` is TL's nat: an unsigned 32-bit word; int / long are signed
+            v = self.fresh('i', ty='int', **(dict(lo=0, hi=(1 << 32) - 1) if t == '#' else {}))
+            return v, v, [(Term('to_bytes', v, K(INTW[t]), K('little'), K(t != '#')), INTW[t])]
         if t == 'Bool':
             b = bool((self.n + self.variant) % 2) and not self.falsy
             self.n += 1
@@ -239,7 +240,7 @@ class Gen:
             if t == '#' and k in ('mode', 'flags') and optional:
                 val.d[k] = K(flagval)
                 exp[k] = flagval
-                enc.append((K(flagval.to_bytes(4, 'little', signed=True)), 4))
+                enc.append((K(flagval.to_bytes(4, 'little', signed=False)), 4))
                 continue
             if '?' in t:
                 if not present_all:
@@ -504,9 +505,9 @@ def check_base_types(run, prog, wser, wdes):
                 exp = v
                 enc = [(K(b'\xb5ur\x99' if v.v else b'7\x97y\xbc'), 4)]
             elif kind == 'int':
-                v = Sym('v', ty='int', key=('v',))
+                v = Sym('v', ty='int', key=('v',), **(dict(lo=0, hi=(1 << 32) - 1) if t == '#' else {}))
                 exp = v
-                enc = [(Term('to_bytes', v, K(INTW[t]), K('little'), K(True)), INTW[t])]
+                enc = [(Term('to_bytes', v, K(INTW[t]), K('little'), K(t != '#')), INTW[t])]
             elif kind == 'negative':
                 v = K(-2)
                 exp = v
